@@ -104,7 +104,7 @@ Section Model.
 
   (* np.where(np_data == _PREAMBLE) over np_data[j] = u16 at byte offset j, j < 2*word_count:
      positions (with the buffer suffix starting there) in ascending order.  [cnt] = 2*word_count - i. *)
-  Fixpoint fi_syncs (l : list N) (i : N) (cnt : nat) : list (N * list N) :=
+  Fixpoint fi_syncs (l : list N) (i : N) (cnt : nat) {struct cnt} : list (N * list N) :=
     match cnt with
     | O => []
     | S c =>
